@@ -54,6 +54,13 @@ class PSym(GroupSym):
         super().__init__(comb)
         self.tw, self.name = tw, name
 
+    def v_compare(self, op, other, it):
+        # comparison of a whole point with another value (a constant representative, None …): an opaque predicate
+        if op in ("==", "!="):
+            t = Term("point_eq", (self.name or repr(self), _hashable(other) if not isinstance(other, GroupSym) else repr(other)), "bool")
+            return t if op == "==" else Term("not", (t,), "bool")
+        return NotImplemented
+
 
 def as_group(v, twisted_default=False):
     if isinstance(v, GroupSym):
